@@ -12,6 +12,7 @@ import Mahotas.Proofs.C13Com
 import Mahotas.Proofs.C13Filter
 import Mahotas.Proofs.C13Oracles
 import Mahotas.Proofs.C13OraclesNum
+import Mahotas.Proofs.C13OraclesFloat
 open Mahotas Mahotas.C13
 
 /-- **C13-T1 (fold_eq, generic).** For every value type, operation `f`, identity `start`, number of
@@ -418,6 +419,68 @@ theorem C13_com_oracle_eq_model {α : Type} [Field α] (shape : List Nat) (ks : 
     (comSpec shape ks labels).map (fun nd => ((nd.1 : Int) : α) / ((nd.2 : Int) : α)) =
       comModelG (fieldOps α) shape (ks.map fun k => ((k : Int) : α)) labels :=
   comSpec_eq_model shape ks labels hnn
+
+/-- **C13 oracle (labeled_sum at `Float`, conditional).** About the very definitions the driver runs for float
+data: with `emb k = Float.ofInt k / scale` (any function `emb : ℤ → Float` here) the driver's model is
+`sumFloat n ((data.map emb).zip labels)` and its oracle is `(foldSpec false "sum" n (data.zip labels)).map emb`.
+They agree in slot `l < n` **provided** `emb 0 = 0.0` and every partial sum of the values labelled `l` is exact:
+`emb a + emb s = emb (a + s)` whenever `a` is a value labelled `l` and `s` the sum of the values labelled `l`
+before it. These two facts about IEEE arithmetic on the dyadic data the harness generates are the whole
+remaining trusted gap for `labeled_sum` on floats (Lean's `Float` is opaque; they are validated by the run). -/
+theorem C13_labeled_sum_float_oracle_eq_model_of_exact (emb : Int → Float) (n : Nat) (data labels : List Int)
+    (l : Nat) (hl : l < n) (h0 : emb 0 = 0.0)
+    (hexact : ∀ pre a rest, valuesOf (data.zip labels) (l : Int) = pre ++ a :: rest →
+      emb a + emb pre.sum = emb (a + pre.sum)) :
+    (sumFloat n ((data.map emb).zip labels))[l]? = ((foldSpec false "sum" n (data.zip labels)).map emb)[l]? := by
+  rw [List.getElem?_map]
+  exact sumFloat_slot_of_exact emb n data labels l hl h0 hexact
+
+/-- **C13 oracle (labeled_max / labeled_min at `Float`, conditional).** Same setting. The models
+`maxFloat lowest` / `minFloat highest` agree with the image of the integer oracle under `emb` in the slot of every
+non-empty label **provided** `emb` is strictly monotone on the values of that label (`emb a < emb b ↔ a < b`,
+Float comparison) and the identities do not beat any value (`¬ emb v < lowest`, `¬ highest < emb v` — true for
+`lowest()`/`max()`, false for the pinned `numeric_limits<double>::min()`: defect #22). -/
+theorem C13_labeled_max_min_float_oracle_eq_model_of_monotone (emb : Int → Float) (lowest highest : Float)
+    (n : Nat) (data labels : List Int) (l : Nat) (hl : l < n)
+    (hne : valuesOf (data.zip labels) (l : Int) ≠ [])
+    (hlow : ∀ v ∈ valuesOf (data.zip labels) (l : Int), ¬ (emb v < lowest))
+    (hhigh : ∀ v ∈ valuesOf (data.zip labels) (l : Int), ¬ (highest < emb v))
+    (hmono : ∀ a ∈ valuesOf (data.zip labels) (l : Int), ∀ b ∈ valuesOf (data.zip labels) (l : Int),
+      (emb a < emb b ↔ a < b)) :
+    (maxFloat lowest n ((data.map emb).zip labels))[l]? =
+      ((foldSpec false "max" n (data.zip labels)).map emb)[l]? ∧
+    (minFloat highest n ((data.map emb).zip labels))[l]? =
+      ((foldSpec false "min" n (data.zip labels)).map emb)[l]? := by
+  rw [List.getElem?_map, List.getElem?_map]
+  exact maxMinFloat_slot_of_monotone emb lowest highest n data labels l hl hne hlow hhigh hmono
+
+/-- **C13 oracle soundness (relabel).** The oracle `relabelSpec` itself satisfies the Prop-level characterisation
+of `C13_relabel_spec`: one function fixing 0, injective on the occurring labels, new labels `1..n` in order of
+first appearance, `n` returned. -/
+theorem C13_relabel_oracle_sound (labels : List Int) :
+    (∃ f : Int → Int, (relabelSpec labels).1 = labels.map f ∧ f 0 = 0 ∧ (∀ v ∈ labels, v ≠ 0 → 1 ≤ f v) ∧
+      (∀ a b, (a ∈ labels ∨ a = 0) → (b ∈ labels ∨ b = 0) → f a = f b → a = b)) ∧
+    C03.Consec 1 (relabelSpec labels).1 ∧
+    (∀ l ∈ (relabelSpec labels).1, l ≤ (relabelSpec labels).2) ∧
+    (∀ k, 1 ≤ k → k ≤ (relabelSpec labels).2 → k ∈ (relabelSpec labels).1) := by
+  rw [C13_relabel_oracle_eq_model]
+  exact C13_relabel_spec labels
+
+/-- **C13 oracle soundness (is_same_labeling).** The oracle `sameSpec` answers `true` exactly when the pairs of
+corresponding labels together with `(0, 0)` form a partial bijection. -/
+theorem C13_same_oracle_sound (a b : List Int) :
+    sameSpec a b = true ↔ PBij (fun x y => (x = 0 ∧ y = 0) ∨ (x, y) ∈ a.zip b) :=
+  sameSpec_iff a b
+
+/-- **C13 oracle soundness (bbox).** When the oracle returns a box `b` for an image of rank ≥ 1 filling its
+shape, there is a non-zero pixel, on every axis `j` the box contains every non-zero pixel
+(`b[2j] ≤ p_j < b[2j+1]`) and both bounds are attained by non-zero pixels. -/
+theorem C13_bbox_oracle_sound (shape : List Nat) (data : List Int) (hlen : data.length = shapeSize shape)
+    (hnd : 0 < shape.length) (b : List Int) (hb : bboxSpec shape data = some b) (j : Nat) (hj : j < shape.length) :
+    let ps := ((List.range data.length).filter fun i => data.getD i 0 ≠ 0).map (unravelI shape)
+    ps ≠ [] ∧ (∀ p ∈ ps, b.getD (2 * j) 0 ≤ p.getD j 0 ∧ p.getD j 0 + 1 ≤ b.getD (2 * j + 1) 0) ∧
+    (∃ p ∈ ps, p.getD j 0 = b.getD (2 * j) 0) ∧ (∃ p ∈ ps, p.getD j 0 + 1 = b.getD (2 * j + 1) 0) :=
+  bboxSpec_sound shape data hlen hnd b hb j hj
 
 /-! non-vacuity of the oracle theorems: the oracles compute non-trivial values on small inputs, and the
     hypotheses are satisfiable (a 2 × 3 image, labels with a gap, an out-of-range sum for the masked case) -/
